@@ -161,7 +161,7 @@ def run(ctx):
 def replay(ctx, doc):
     inp = doc["input"]
     d = inp["truth"]
-    tr = P.Truth(d["dt"], d["t0"], d["sy"], d["Z"], d["rain"], d["level"], d["et"], d["events"], d["s"], d["j"])
+    tr = P.Truth.from_description(d)
     w = P.run_workflow(ctx, tr.rows(), tr.s, tr.j, float(inp["zeta_step"]), keep_db=True, steps=("load", "classify", "grid"))
     r, rows = run_ref(ctx, w["db"], inp["command"], inp.get("reference"))
     P.cleanup(w)
